@@ -90,6 +90,14 @@ func c06RealtimeFeed() *gtfsrt.FeedMessage {
 			Trip: &gtfsrt.TripDescriptor{TripId: sp(fmt.Sprintf("T%d", 4-i)), RouteId: sp("R")}, Vehicle: &gtfsrt.VehicleDescriptor{Id: sp(fmt.Sprintf("V%d", i))},
 			StopTimeUpdate: []*gtfsrt.TripUpdate_StopTimeUpdate{{StopId: sp(fmt.Sprintf("S%d", i))}}}})
 	}
+	// trips that differ only in one identifier component, incl. "start time 00:00:00" vs "no start time"
+	for i, td := range []*gtfsrt.TripDescriptor{
+		{TripId: sp("TT"), RouteId: sp("R"), StartTime: sp("00:00:00")},
+		{TripId: sp("TT"), RouteId: sp("R")},
+		{TripId: sp("TT"), RouteId: sp("R"), StartDate: sp("20240101")},
+	} {
+		m.Entity = append(m.Entity, &gtfsrt.FeedEntity{Id: sp(fmt.Sprintf("tie%d", i)), TripUpdate: &gtfsrt.TripUpdate{Trip: td, StopTimeUpdate: []*gtfsrt.TripUpdate_StopTimeUpdate{{StopId: sp(fmt.Sprintf("TS%d", i))}}}})
+	}
 	m.Entity = append(m.Entity, &gtfsrt.FeedEntity{Id: sp("vp"), Vehicle: &gtfsrt.VehiclePosition{Vehicle: &gtfsrt.VehicleDescriptor{Id: sp("V2")}, StopId: sp("VS2")}})
 	m.Entity = append(m.Entity, &gtfsrt.FeedEntity{Id: sp("vp0"), Vehicle: &gtfsrt.VehiclePosition{StopId: sp("VS0")}})
 	a := &gtfsrt.Alert{}
@@ -173,10 +181,17 @@ type rtConfig struct {
 
 func c06Configs() []rtConfig {
 	cfgs := []rtConfig{{"options{Extension:nil}", "nil-extension", func() *gtfs.ParseRealtimeOptions { return &gtfs.ParseRealtimeOptions{} }}}
-	for _, o := range nyctOptCombos {
+	cfgs = append(cfgs, rtConfig{"options{Extension:NoExtension,Timezone:nil}", "no-op-extension", func() *gtfs.ParseRealtimeOptions {
+		return &gtfs.ParseRealtimeOptions{Extension: extensions.NoExtension()}
+	}})
+	for i, o := range nyctOptCombos {
 		o := o
-		cfgs = append(cfgs, rtConfig{"nycttrips" + nyctOptName(o), "nycttrips", func() *gtfs.ParseRealtimeOptions {
-			return &gtfs.ParseRealtimeOptions{Timezone: zoneNY, Extension: nycttrips.Extension(o)}
+		tz := zoneNY
+		if i%2 == 1 {
+			tz = nil // the caller leaves the zone to the default
+		}
+		cfgs = append(cfgs, rtConfig{"nycttrips" + nyctOptName(o) + fmt.Sprintf("/tz=%v", tz), "nycttrips", func() *gtfs.ParseRealtimeOptions {
+			return &gtfs.ParseRealtimeOptions{Timezone: tz, Extension: nycttrips.Extension(o)}
 		}})
 	}
 	for _, p := range policies {
@@ -211,6 +226,7 @@ func c06History(maxLen int) Harness {
 		c.Input(hash64(desc), n >= 2, func() string { return desc })
 		shared := cfg.mk()
 		sharedWasNil := shared.Extension == nil
+		tzBefore := shared.Timezone
 		var last *gtfs.Realtime
 		for _, f := range seq {
 			in := append([]byte(nil), feeds[f]...)
@@ -228,6 +244,9 @@ func c06History(maxLen int) Harness {
 			last = r
 		}
 		c.Steps(n + 1)
+		if shared.Timezone != tzBefore {
+			c.Fail(cfg.family+"/caller-options-mutated", "%s: ParseRealtime wrote to the caller's options (Timezone was %v, is now %v)", desc, tzBefore, shared.Timezone)
+		}
 		if sharedWasNil && shared.Extension != nil {
 			c.Fail(cfg.family+"/caller-options-mutated", "%s: ParseRealtime wrote to the caller's options (Extension was nil, is now %T)", desc, shared.Extension)
 		}
@@ -357,8 +376,12 @@ func runOneshot(spec string) []string {
 // c06FreshProcess: every history of <= 3 calls over the 5 symbols runs in a pristine process;
 // each call's dump must equal the dump of that call as the only call of another pristine
 // process. Fully replayable: no state of the exploring process is involved.
-func c06FreshProcess(c *Ctx) {
-	n := 1 + c.Free("history_length", 3)
+func c06FreshProcess(maxLen int) Harness {
+	return func(c *Ctx) { c06FreshProcessRun(c, maxLen) }
+}
+
+func c06FreshProcessRun(c *Ctx, maxLen int) {
+	n := 1 + c.Free("history_length", maxLen)
 	var syms []string
 	var names []string
 	for i := 0; i < n; i++ {
@@ -394,20 +417,20 @@ func init() {
 	register(&Check{
 		ID:    "C06",
 		Level: "model_checking",
-		Rule: "(1) every combination of iteration starts at every library map range (choice points owned through the runtime overlay) for a static archive with 3 services/3 shapes/3 trips/3 sibling stops and a realtime message with 3 id-bearing vehicles, 3 trips and an alert with 3 fall-back routes; (2) all call sequences of <= 3 (thorough <= 4) over 6 feeds on ONE shared options/extension object for each of 29 configurations (nil Extension, 4 nycttrips, 24 nyctalerts), and all sequences of <= 3 static parses over 3 archives x inherit option; (3) relation (bytes, configuration) -> dump over every parse of the run, across worker processes; (4) all histories of <= 3 calls over {static archive in New_York / Kolkata / an unknown zone, realtime feed under New_York / UTC / London} each executed in its own pristine process and compared call by call with single-call pristine processes; " +
+		Rule: "(1) every combination of iteration starts at every library map range (choice points owned through the runtime overlay) for a static archive with 3 services/3 shapes/3 trips/3 sibling stops and a realtime message with 3 id-bearing vehicles, 3 trips and an alert with 3 fall-back routes; (2) all call sequences of <= 3 (thorough <= 5) over 6 feeds on ONE shared options/extension object for each of 30 configurations (nil Extension, explicit no-op, 4 nycttrips with and without Timezone, 24 nyctalerts), and all sequences of <= 3 static parses over 3 archives x inherit option; (3) relation (bytes, configuration) -> dump over every parse of the run, across worker processes; (4) all histories of <= 3 (thorough 4) calls over {static archive in New_York / Kolkata / an unknown zone, realtime feed under New_York / UTC / London} each executed in its own pristine process and compared call by call with single-call pristine processes; " +
 			"non-trivial = distinct histories of >= 2 calls or inputs with a >= 3-entry library map; oracle = differential (rotated vs. fixed order, reused vs. fresh object) with content and order compared",
 		Assumptions: []string{"library maps are single-bucket (<= 8 entries) in these inputs, so rotations are all achievable orders; uncontrolled_maps counts any exception", "process-level state (package variables) is exercised by running histories in 16 separate worker processes that must all agree"},
 		Scenarios: func(tier string) []*Scenario {
-			n := 3
+			n, np := 3, 3
 			if tier == "thorough" {
-				n = 4
+				n, np = 5, 4
 			}
 			return []*Scenario{
 				{Name: "map-orders/static", Bound: -1, Run: c06MapOrderStatic},
 				{Name: "map-orders/realtime", Bound: -1, Run: c06MapOrderRealtime},
 				{Name: fmt.Sprintf("histories<=%d/realtime", n), Bound: -1, Run: c06History(n)},
 				{Name: "histories<=3/static", Bound: -1, Run: c06StaticHistory},
-				{Name: "histories<=3/pristine-processes", Bound: -1, Run: c06FreshProcess},
+				{Name: fmt.Sprintf("histories<=%d/pristine-processes", np), Bound: -1, Run: c06FreshProcess(np)},
 			}
 		},
 	})
